@@ -1,6 +1,7 @@
 """C03 — Every emitted document is a closed, structurally valid OpenAPI 3 description (ref closure, status domain, path parameters)."""
 import re
 from facts import hir_walk, callee_def, callee_of, variant_of, pat_variants
+from facts import operands_of_rvalue
 import pathrules as P
 import mirflow as MF
 
@@ -14,7 +15,7 @@ EXPLANATION = (
     "the identity. (R3) PATH-PARAM - every Parameter::Path gets required = constant true (followed one call level), and "
     "path key and path parameters are computed from the same Uri, both walking UriSegment::Variable of uri.path. "
     "(R5) BASE-CLOSED - the base's paths are replaced wholesale (shared with C14) and the kept component maps are reported as able to hold dangling references; (R6) OPID - every path segment and the method contribute to the synthesised operationId, the segment label is injective (no case folding, literal/variable marked, empty segment labelled). Distinct variable names in a path and the YAML round trip are not decided.")
-EXPLANATION += ' Strengthened after the seeded rounds: the functions applied between a name and its sink agree on the emit side and the register side (R1); uri_params returns the list it pushed to, with no de-duplicating or selecting step (R3). Also (R3): uri_params is called on every path to a return of relation_path_item, and a literal URI segment is the verbatim text of its path element.'
+EXPLANATION += ' Strengthened after the seeded rounds: the functions applied between a name and its sink agree on the emit side and the register side (R1); uri_params returns the list it pushed to, with no de-duplicating or selecting step (R3). Also (R3): uri_params is called on every path to a return of relation_path_item, and a literal URI segment is the verbatim text of its path element. R6 also requires every id returned by xfer_id to depend on the method.'
 TECHNIQUE = "static analysis: constructor census + MIR dominance/polarity agreement + constant provenance"
 
 
@@ -505,7 +506,31 @@ def r6_operation_ids(c, facts):
         c.ok(R, {'xfer_id': 'prefixed with the method label'})
     else:
         c.bad(R, 'xfer_id:no-method-prefix', 'the operationId no longer starts with the method: two methods of one path collide')
-    # explicit ids win
+    # every operationId handed out depends on the method: one Transfer carries one `id` for all its methods
+    mparams = [i + 1 for i in range(xi.mir['argc']) if 'Method' in xi.mir['locals'][i + 1]['ty'] and 'HashMap' not in xi.mir['locals'][i + 1]['ty']]
+    if len(mparams) != 1:
+        c.bad(R, 'xfer_id:method-parameter-shape', 'xfer_id no longer takes exactly one method parameter')
+    else:
+        indep = []
+        for kind, bi, x in idx.get(0, []):
+            if kind == 'call':
+                srcs = [a for a in x['args'] if 'l' in a]
+            elif kind == 'assign':
+                if x['rv']['r'] == 'aggr' and x['rv'].get('variant') == 'None':
+                    continue
+                srcs = [o for o in operands_of_rvalue(x['rv']) if 'l' in o]
+            else:
+                continue
+            args = set()
+            for o in srcs:
+                args |= MF.slice_back(xi, o['l'], idx)['args']
+            if mparams[0] not in args:
+                indep.append(x.get('ln'))
+        c.floor(R, 'return values of xfer_id examined', len(idx.get(0, [])), 2)
+        if indep:
+            c.bad(R, 'xfer_id:explicit-id-shared-by-methods', 'xfer_id returns an operationId that does not depend on the method (line %s): the explicit `operationId` annotation of a transfer with several methods is given to each of its operations' % ','.join(str(l) for l in indep))
+        else:
+            c.ok(R, {'xfer_id': 'every returned id depends on the method'})
     lab = c.anchor(R, 'oal_openapi::Builder::uri_segment_label')
     folds = sorted({P.strip(callee_of(t)['def']).split('::')[-1] for b, t in lab.calls() if callee_of(t) and P.strip(callee_of(t)['def']).split('::')[-1] in ('to_lowercase', 'to_uppercase', 'to_ascii_lowercase', 'to_ascii_uppercase')})
     if folds:
@@ -534,6 +559,12 @@ def r6_operation_ids(c, facts):
 
 
 def run(c, facts):
+    import c02 as _c02
+    import c09 as _c09
+    R7 = c.rule('C03.R7', 'CONCAT-PATH: a path built with concat is left path + right path, never empty, so every path key is a well-formed template (shared with C02.R12)')
+    c.shared(R7, _c02.r12_combine, 'C02.R12', facts)
+    R8 = c.rule('C03.R8', 'MARKER: a name handed out for a recursion point is registered with its value on every path, so the $ref to it resolves (shared with C09.R1)')
+    c.shared(R8, _c09.r1_marker, 'C09.R1', facts)
     import c04
     c.run(r5_base_closed, facts)
     c.run(r6_operation_ids, facts)
